@@ -33,8 +33,16 @@ let handle (toks : string list) : (string * string * string) option =
         | "stru" -> fin alloc (vrun sc (cv_string_unique (ni w) (ni off)) m0 O)
         | "strs" -> fin alloc (vrun sc (cv_string_std (ni w) (ni off)) m0 O)
         | "cmda" -> fin alloc (vrun sc (cmda (ni w) (ni off) (ni a)) m0 O)
+        | "cvba" | "cva" ->
+          (* the window is the last w bytes of a 2^32-byte sandbox: a representation r designates window offset r - (2^32 - w) *)
+          let total = Z.pow (z_of_int 2) (z_of_int 32) in
+          let r = (if variant = "cvba" then vrun sc (cv_buffer_address total (z_of_int a) (ni off)) m0 O
+                   else vrun sc (cv_address (ni off)) m0 O) in
+          (match r with
+           | Ok ((v, _), t) -> "A " ^ string_of_z v ^ " ticks=" ^ string_of_int (int_of_nat t)
+           | Abort -> "ABORT" | Fault -> "FAULT" | Diverge -> "DIVERGE")
         | _ -> failwith "bad variant") in
     let cls = "cv09:" ^ variant ^ ":muts" ^ string_of_int (List.length muts) ^
-              (if String.length s > 0 && s.[0] <> 'V' then ":" ^ s else "") in
+              (if String.length s > 0 && s.[0] <> 'V' && s.[0] <> 'A' then ":" ^ s else "") in
     Some (s, s, cls)
   | _ -> None
